@@ -446,10 +446,14 @@ def run_history(xsmc, hist, tier, work, stats, violations, samples):
         if e[0] == "ack":
             state = apply_effects(state, e[1].get("effects", []))
             ack_pos += 1
-            continue
-        e[1](fs)
-        if e[0] != "mut" or k < first_ack:
-            continue
+            if k <= first_ack:
+                continue
+            # the moment right after an acknowledgement is a crash point of its own: the files
+            # are as they were, what has been promised is not
+        else:
+            e[1](fs)
+            if e[0] != "mut" or k < first_ack:
+                continue
         # in-flight operation = the next ACK after k
         nxt = next((events[i][1] for i in acks if i > k), None)
         allowed = [state]
@@ -457,7 +461,7 @@ def run_history(xsmc, hist, tier, work, stats, violations, samples):
             effs = nxt.get("effects", [])
             for j in range(1, len(effs) + 1):
                 allowed.append(apply_effects(state, effs[:j]))
-        label = "%s@%d after[%s]" % (hist, k, e[2])
+        label = "%s@%d after[%s]" % (hist, k, e[2] if e[0] != "ack" else "ACK " + str(e[1].get("op")))
         snap = fs.snapshot()
         img = os.path.join(work, hist, "img-%d-kill" % k)
         jobs.append((label + " kill", "kill", img, allowed, snap, None))
@@ -487,6 +491,109 @@ def run_history(xsmc, hist, tier, work, stats, violations, samples):
                 jobs.append((label + " torn(last unsynced write of %s cut at %d/%d)" % (os.path.relpath(p, root), c, n), "torn", img, allowed, snap, (p, last, c)))
                 nimg += 1
 
+    # second generation: the process is killed inside an import / remove, the store is reopened
+    # (recovery runs), the client - which never got an answer - sends the same request again and
+    # is acknowledged; from then on that operation must survive a power loss as well
+    g2 = []
+    fs = FS(root)
+    state = ({}, set())
+    for k, e in enumerate(events):
+        if e[0] == "ack":
+            state = apply_effects(state, e[1].get("effects", []))
+            continue
+        e[1](fs)
+        if e[0] != "mut" or k < first_ack:
+            continue
+        nxt = next((events[i][1] for i in acks if i > k), None)
+        if not nxt or nxt.get("op") not in ("import", "import-again", "remove", "remove-collected", "remove-expired"):
+            continue
+        if not e[2].startswith(("write /fjall/journals", "pwrite64 /fjall/journals", "fsync /fjall/journals", "fdatasync /fjall/journals")):
+            continue
+        g2.append((k, fs.snapshot(), state, nxt))
+    if tier != "thorough":
+        g2 = g2[:: max(1, len(g2) // 12)][:14]
+
+    def second_generation(item):
+        k, snap, state_k, nxt = item
+        out = []
+        d2 = os.path.join(work, hist, "g2-%d" % k, "store")
+        os.makedirs(os.path.dirname(d2), exist_ok=True)
+        materialise(snap, root, d2, power_loss=False)
+        spec = os.path.join(work, hist, "g2-%d" % k, "retry.json")
+        effs = nxt.get("effects", [])
+        if nxt["op"].startswith("import"):
+            # the frame of the import in flight (import-again carries no effect: same frame as the import before it)
+            frame = next((ef["ins"] for ef in effs if "ins" in ef), None) or next((f for f in state_k[0].values() if f["topic"] == "imp"), None)
+            if frame is None:
+                return out
+            retry = {"op": "import", "frame": frame}
+            retry_effects = [{"ins": frame}]
+        else:
+            fid = next((ef["del"] for ef in effs if "del" in ef), None)
+            if fid is None:
+                return out
+            retry = {"op": "remove", "id": fid}
+            retry_effects = [{"del": fid}]
+        json.dump(retry, open(spec, "w"))
+        trace2 = os.path.join(work, hist, "g2-%d" % k, "trace.txt")
+        r = subprocess.run(["strace", "-f", "-xx", "-s", "10000000", "-o", trace2, "-e", "trace=file,desc,%process", xsmc, "driver2", d2, spec],
+                           stdout=subprocess.PIPE, stderr=subprocess.PIPE, timeout=120)
+        label0 = "%s@%d after[%s] kill, reopen, retry of %s" % (hist, k, events[k][2], nxt["op"])
+        if r.returncode != 0:
+            return [(label0, "kill", ["the store does not reopen: driver2 exit %s: %s" % (r.returncode, r.stderr.decode(errors="replace")[-300:].replace("\n", " | "))], None)]
+        ev2 = parse_trace(trace2, d2)
+        acks2 = [i for i, e2 in enumerate(ev2) if e2[0] == "ack"]
+        if len(acks2) < 2:
+            raise HarnessError("driver2: missing ACK markers")
+        # the file-system state of the first generation (what is durable, what is only in the page
+        # cache) carries over; the dead process's descriptors do not
+        fs2 = FS(d2)
+        for pth, fl in snap.files.items():
+            fs2.files[d2 + pth[len(root):]] = fl.clone()
+        fs2.dirs = set(d2 + x[len(root):] for x in snap.dirs)
+        want = apply_effects(state_k, retry_effects)
+        retry_ack = acks2[1]
+        n2 = 0
+        for j, e2 in enumerate(ev2):
+            if e2[0] == "ack":
+                continue
+            e2[1](fs2)
+            if j < retry_ack or e2[0] != "mut":
+                continue
+            for kind in ("kill", "power"):
+                snap2 = fs2.snapshot()
+                if kind == "power" and not any(os.path.relpath(pp, d2).startswith("fjall/journals/") and [d for d in ff.dirty if d[0] != "trunc"] for pp, ff in snap2.files.items()):
+                    continue
+                img = os.path.join(work, hist, "g2-%d" % k, "img-%d-%s" % (j, kind))
+                materialise(snap2, d2, img, power_loss=(kind == "power"), torn=None)
+                rr = subprocess.run([xsmc, "recover", img, probe], stdout=subprocess.PIPE, stderr=subprocess.PIPE, timeout=60)
+                shutil.rmtree(img, ignore_errors=True)
+                m = re.search(r"RECOVERED (.*)", rr.stdout.decode(errors="replace"))
+                label = "%s, then %s after[%s]" % (label0, "power loss" if kind == "power" else "kill", e2[2])
+                if rr.returncode != 0 or not m:
+                    out.append((label, kind, ["the store does not reopen: exit %s: %s" % (rr.returncode, rr.stderr.decode(errors="replace")[-300:].replace("\n", " | "))], None))
+                else:
+                    rec = json.loads(m.group(1))
+                    out.append((label, kind, check_recovered(rec, [want], kind == "kill", label), json.dumps(sorted(f["id"] for f in rec["all"]))))
+                n2 += 1
+        # the state right after the retry's acknowledgement, if nothing else was written after it
+        if n2 == 0:
+            for kind in ("kill", "power"):
+                snap2 = fs2.snapshot()
+                img = os.path.join(work, hist, "g2-%d" % k, "img-end-%s" % kind)
+                materialise(snap2, d2, img, power_loss=(kind == "power"), torn=None)
+                rr = subprocess.run([xsmc, "recover", img, probe], stdout=subprocess.PIPE, stderr=subprocess.PIPE, timeout=60)
+                shutil.rmtree(img, ignore_errors=True)
+                m = re.search(r"RECOVERED (.*)", rr.stdout.decode(errors="replace"))
+                label = "%s, then %s after the acknowledgement" % (label0, "power loss" if kind == "power" else "kill")
+                if rr.returncode != 0 or not m:
+                    out.append((label, kind, ["the store does not reopen: exit %s" % rr.returncode], None))
+                else:
+                    rec = json.loads(m.group(1))
+                    out.append((label, kind, check_recovered(rec, [want], kind == "kill", label), json.dumps(sorted(f["id"] for f in rec["all"]))))
+        shutil.rmtree(os.path.join(work, hist, "g2-%d" % k), ignore_errors=True)
+        return out
+
     def do(job):
         label, kind, img, allowed, snap, torn = job
         materialise(snap, root, img, power_loss=(kind != "kill"), torn=torn if kind != "kill" else None)
@@ -501,6 +608,12 @@ def run_history(xsmc, hist, tier, work, stats, violations, samples):
 
     with ThreadPoolExecutor(max_workers=os.cpu_count() or 4) as ex:
         results = list(ex.map(do, jobs))
+        g2_results = [x for lst in ex.map(second_generation, g2) for x in lst]
+    stats["second_generation_runs"] = stats.get("second_generation_runs", 0) + len(g2)
+    stats["images_second_generation"] = stats.get("images_second_generation", 0) + len(g2_results)
+    for (label, kind, probs, sig) in g2_results:
+        for pr in probs:
+            violations.append({"history": hist, "image": label, "kind": "g2-" + kind, "problem": pr})
     distinct = set()
     for (label, kind, probs, sig) in results:
         stats["images_" + kind] = stats.get("images_" + kind, 0) + 1
@@ -530,7 +643,7 @@ def main():
     shutil.rmtree(work, ignore_errors=True)
     os.makedirs(work)
     stats, violations, samples = {}, [], []
-    hists = ["H1", "H2", "H3"] + (["H4"] if tier == "thorough" else ["H4"])
+    hists = ["H1", "H2", "H3", "H4", "H5"]
     t0 = time.time()
     try:
         for h in hists:
